@@ -4,7 +4,7 @@
    options Opt) and in the number of sub-environments (arbitrary lists), and quantify over arbitrary
    op lists. *)
 From Coq Require Import List ZArith Bool.
-From SB3V Require Import Gen.Frag_vecenv Model.Script Model.VecEnv Proofs.VecEnvProofs.
+From SB3V Require Import Gen.Frag_vecenv Model.Script Model.VecEnv Model.OnPolicyCollect Model.VecAttr Proofs.VecEnvProofs Proofs.VecEnvTieProofs Proofs.VecAttrProofs.
 Import ListNotations.
 Local Open Scope nat_scope.
 
@@ -165,6 +165,49 @@ Theorem C01_vec_seed_delivery : forall E O A I Opt
 Proof. exact (@vec_seed_delivery). Qed.
 Print Assumptions C01_vec_seed_delivery.
 
+(* --- the per-env auto-reset step duplicated in Model/OnPolicyCollect.v (vstep1, used by C04/C06) is the
+       projection of sub_step on the scripted sub-environment --- *)
+Theorem C01_onpolicy_vstep1_is_sub_step : forall (sc : script) (c : cursor) (ri : option Z) (a : Z),
+  let r := sub_step sc_step sc_reset (sc, c) ri a in
+  let o := snd (fst r) in
+  let v := snd (vstep1 sc c) in
+  fst (fst (fst r)) = (sc, fst (vstep1 sc c)) /\
+  so_obs o = vo_obs v /\ so_rew o = vo_r4 v /\ so_done o = vo_done v /\
+  so_term o = vo_term v /\ so_tl o = vo_tl v /\
+  vo_done v = (vo_terminated v || vo_truncated v) /\ vo_tl v = (vo_truncated v && negb (vo_terminated v)).
+Proof. exact vstep1_is_sub_step. Qed.
+Print Assumptions C01_onpolicy_vstep1_is_sub_step.
+
+(* --- VecEnvWrapper base: attribute lookup through any chain of wrappers --- *)
+Theorem C01_wrapper_getattr_spec : forall name layers base,
+  wrapper_getattr name layers base =
+  match holders name 0 layers base with
+  | [] => NoAttribute
+  | [(_, v)] => Value v
+  | _ :: (d2, _) :: _ => Ambiguous d2
+  end.
+Proof. exact wrapper_getattr_spec. Qed.
+Print Assumptions C01_wrapper_getattr_spec.
+
+Theorem C01_py_getattr_spec : forall name l inner base,
+  py_getattr name (l :: inner) base =
+  match find name l with
+  | Some v => Value v
+  | None => match holders name 1 inner base with
+            | [] => NoAttribute
+            | [(_, v)] => Value v
+            | _ :: (d2, _) :: _ => Ambiguous d2
+            end
+  end.
+Proof. exact py_getattr_spec. Qed.
+Print Assumptions C01_py_getattr_spec.
+
+Theorem C01_holders_outermost_first : forall name layers base d,
+  Sorted.StronglySorted (fun a b => fst a < fst b) (holders name d layers base) /\
+  Forall (fun a => d <= fst a <= d + length layers) (holders name d layers base).
+Proof. exact holders_sorted. Qed.
+Print Assumptions C01_holders_outermost_first.
+
 (* ---------- non-vacuity: the hypotheses are satisfiable on concrete, non-trivial data ---------- *)
 Definition ex_sc1 : script :=
   [mk_episode 10 1 [mk_sstep 11 (-3) false false 5; mk_sstep 12 4 true true 6]; mk_episode 20 2 [mk_sstep 21 1 false true 7]].
@@ -203,3 +246,12 @@ Proof. split; split; cbn; auto. Qed.
 Example ex_quiet : forallb (@vquiet Z Z) [VSetOptionsAll (Some 9%Z)] = true /\
                    forallb (@not_seed Z Z) [SStep 1%Z; SSetOpt None] = true.
 Proof. split; reflexivity. Qed.
+
+(* attribute 7 lives in wrapper 1 and in the base VecEnv: lookup from the outermost wrapper (0) is refused and
+   names the base (index 3) as the hidden one; attribute 8 has one holder; attribute 9 none *)
+Example ex_getattr :
+  py_getattr 7%Z [[(5, 50)]; [(7, 70)]; []]%Z [(7, 71); (8, 80)]%Z = Ambiguous 3 /\
+  py_getattr 8%Z [[(5, 50)]; [(7, 70)]; []]%Z [(7, 71); (8, 80)]%Z = Value 80%Z /\
+  py_getattr 9%Z [[(5, 50)]; [(7, 70)]; []]%Z [(7, 71); (8, 80)]%Z = NoAttribute /\
+  py_getattr 7%Z [[(7, 70)]; [(7, 72)]]%Z [(7, 71)]%Z = Value 70%Z.
+Proof. repeat split; reflexivity. Qed.
